@@ -211,6 +211,21 @@ CHECKS = {
         note="Presets: the six shipped YAML simulations, six manuscript simulations expressed with the dispatcher's option names, "
              "19 single-option variations (harness/presets.py).",
     ),
+    "C17": dict(
+        technique="TLA+ spec Pipeline.tla: build graph and script machine checked by TLC; recorded script executions (audit hook), rows of "
+                  "the rebuilt combined table and averaging-helper vectors validated by Trace_Pipeline",
+        category="model_checking",
+        text="Pipeline.tla declares, per import script, the files it reads and the file it writes; TLC checks one producer per derived "
+             "file, that scripts/run_all_imports.sh's order is a linear extension of the dependencies (head counts before the per-animal "
+             "tables, the combined table last) and, on the script machine, that every dependency-respecting order ends in the same state "
+             "with no stale read. All 21 scripts are executed in a scratch copy, each in its own interpreter under an `open` audit hook: "
+             "the files actually opened must be the declared ones, the output's sha-256 must equal the shipped file's (Fresh). The 164 rows "
+             "of the rebuilt combined table are checked against RowOK in limb arithmetic and 510 boundary vectors (TLC-enumerated) are run "
+             "through weighted_average_percentages and checked against Avg.",
+        design_ref="5 (C17), Pipeline.tla",
+        note="Byte equality is observed as a content identity, not derived; TLC adds declared IO, ordering, completeness, row invariants "
+             "and the averaging relation.",
+    ),
     "C18": dict(
         technique="TLA+ spec Handoff.tla: relations FillMin / Retime / Bump; MC_Handoff enumerates small inputs that are run "
                   "through the real Parameters helpers; Trace_Handoff validates those and every corpus run's hand-offs",
